@@ -1,4 +1,26 @@
-"""C20 - A schedule shows the value its calendar dictates at every instant, never stale."""
+"""C20 - A schedule shows the value its calendar dictates at every instant, never stale.
+
+Harnesses (reference models: vf/ref/C20_dates.py, C20_sched.py, C20_clock.py):
+
+* match_date, match_weeknday, match_date_range, calendar_entry - the real date matchers
+  against matchers written from clauses 20.2.12 / 21, date and pattern octets symbolic.
+* eval_ref - LocalScheduleInterpreter.eval on a schedule with symbolic content against a
+  direct interpreter of clause 12.24 (value), plus progress and no-staleness of the
+  reported next transition.
+* sched_run - a LocalScheduleObject driven by its own timer through the real core.run on
+  the virtual clock, started and probed at symbolic instants, across midnights and both
+  edges of the effective period.
+
+Violation kinds that name one specific suspect (everything else is a plain mismatch):
+  date-range-open-ended          a date inside a range with an unspecified limit is refused
+                                 (sig: start_unspecified / end_unspecified / on_limit)
+  stale-window (sig tie=true)    value changes before the reported next transition when two
+                                 exceptions in force share a priority
+  eval-none-outside-period       the event loop logged a TypeError from the interpreter task
+                                 while the clock was outside the effective period
+  schedule-stops-at-period-edge  started before the period, wrong present value inside it
+  timer-livelock                 the timer is re-armed at or before "now" (loop spins)
+"""
 from ..api import Inst, Violation, HarnessError, meta
 from ..ref import C20_dates as R
 
@@ -119,10 +141,10 @@ def _range_verdict(d, date, start, end, got, kind):
     want = R.match_date_range(date, start, end)
     if bool(got) != want:
         # d.flag: an open (known) finding on open-ended ranges must not hide the rest.  The
-        # open-ended kind is used only where the unspecified limit is what decides: the date
-        # belongs to the range and does not sit on the specific limit.
+        # open-ended kind: a date that belongs to a range with an unspecified limit is refused;
+        # the signature says which limit is unspecified and whether the date sits on the other.
         sig = range_sig(date, start, end)
-        open_ended = want and (sig['start_unspecified'] or sig['end_unspecified']) and not sig['on_limit']
+        open_ended = want and (sig['start_unspecified'] or sig['end_unspecified'])
         d.flag(True, "date-range-open-ended" if open_ended else kind, got=got, want=want, **sig)
 
 
@@ -382,7 +404,7 @@ def eval_ref(d, days, exc, nweek, eff='wide', prio='sym', res='hm', stale='insta
         return
     if out is None:
         sig = range_sig(date, cfg['eff'][0], cfg['eff'][1])
-        oe = (sig['start_unspecified'] or sig['end_unspecified']) and not sig['on_limit']
+        oe = sig['start_unspecified'] or sig['end_unspecified']
         d.flag(True, "date-range-open-ended" if oe else "eval-inactive-inside-period",
                where="effectivePeriod", **sig)
         d.reach()
@@ -575,7 +597,7 @@ def instances(tier):
         out.append(Inst(match_date_range, dict(start=SP, end=SP, dow='right'), budget=B))
         out.append(Inst(calendar_entry, dict(choice='date', maxday=28), budget=B))
         out.append(Inst(calendar_entry, dict(choice='dateRange', maxday=28), budget=B))
-        out.append(Inst(calendar_entry, dict(choice='weekNDay', maxday=28, months=(2, 3)), budget=B))
+        out.append(Inst(calendar_entry, dict(choice='weekNDay', maxday=28, months=(3, 4)), budget=B))
         # ---- eval: weekly list alone, on all three days
         _ev(out, B, days=A, exc=[], nweek=None)
         _ev(out, B, days=A, exc=[], nweek=2)
@@ -599,8 +621,8 @@ def instances(tier):
         # ---- the object on its own timer
         for edge in ('none', 'enter', 'exit'):
             out.append(Inst(sched_run, dict(base='leap', edge=edge, res='h', start_days=(0, 2), span=2), budget=B))
-        out.append(Inst(sched_run, dict(base='newyear', edge='none', res='h', start_days=(0, 1), span=2), budget=B))
-        out.append(Inst(sched_run, dict(base='leap', edge='none', res='m', start_days=(0, 2), span=2), budget=300))
+        out.append(Inst(sched_run, dict(base='newyear', edge='none', res='h', start_days=(1, 1), span=1), budget=B))
+        out.append(Inst(sched_run, dict(base='leap', edge='none', res='m', start_days=(0, 2), span=2), budget=B))
         return out
 
     # ------------------------------------------------------------------ thorough
